@@ -522,6 +522,7 @@ type Portfolio struct {
 	Seconds  float64
 	ErrLine  string
 	Used     map[string]int
+	fails    int
 }
 
 type solverSpec struct {
@@ -608,6 +609,19 @@ func (p *Portfolio) Check(extra []*Term, want []*Term) CheckResult {
 		if r.Status == "sat" || r.Status == "unsat" {
 			p.Used[p.specs[i].kind]++
 			r.Secs = total
+			if i > 0 {
+				// adaptive order: the configuration that answered goes first for the next queries
+				p.fails++
+				if p.fails >= 2 {
+					sp, so := p.specs[i], p.solvers[i]
+					copy(p.specs[1:i+1], p.specs[0:i])
+					copy(p.solvers[1:i+1], p.solvers[0:i])
+					p.specs[0], p.solvers[0] = sp, so
+					p.fails = 0
+				}
+			} else {
+				p.fails = 0
+			}
 			return r
 		}
 	}
